@@ -241,7 +241,7 @@ def tier_arg(argv):
     return tier, replay
 
 
-def tlc_trace(w, name, module, cfg_text, rows, chunk=1500, timeout=3000, obsfile="obs.ndjson", extra_files=(), carry=None):
+def tlc_trace(w, name, module, cfg_text, rows, chunk=1500, timeout=3000, obsfile="obs.ndjson", extra_files=(), carry=None, boundary=None):
     """Trace validation (direction B / verdict): split the recorded events into chunks, validate
     each chunk with its own TLC process (-workers 1, linear behaviour), merge verdict.ndjson.
     Verdict fields: n (events consumed), lists of records carrying an event index 'i', lists of
@@ -255,12 +255,20 @@ def tlc_trace(w, name, module, cfg_text, rows, chunk=1500, timeout=3000, obsfile
     # per key seen before it, so that every chunk is a self-contained trace
     parts = []
     latest = {}
-    for k in range(nchunks):
-        part = rows[k * size:(k + 1) * size]
+    # boundary(row) -> True where a chunk may start (multi-event cases must not be cut)
+    cuts = [0]
+    while cuts[-1] < len(rows):
+        nxt = min(len(rows), cuts[-1] + size)
+        if boundary:
+            while nxt < len(rows) and not boundary(rows[nxt]):
+                nxt += 1
+        cuts.append(nxt)
+    for k in range(len(cuts) - 1):
+        part = rows[cuts[k]:cuts[k + 1]]
         if not part:
             continue
         prefix = list(latest.values())
-        parts.append((k * size - len(prefix), len(prefix), prefix + part))
+        parts.append((cuts[k] - len(prefix), len(prefix), prefix + part))
         if carry:
             for r_ in part:
                 key = carry(r_)
